@@ -213,16 +213,21 @@ func (s *Sim) makeCallback(oi int) func(ecs.Entity) {
 		locked := s.W.IsLocked()
 		alive := s.W.Alive(e)
 		cnt := 0
+		var view []int64 // world_view in World.v: every row a full query lists, as entity + snapshot
 		q := s.cbFilter.Query()
 		for q.Next() {
-			if q.Entity() == e {
+			x := q.Entity()
+			if x == e {
 				cnt++
 			}
+			view = append(view, int64(x.ID()), int64(x.Gen()))
+			view = append(view, s.snapshot(x)...)
 		}
 		entry := []int64{100, int64(oi), int64(e.ID()), int64(e.Gen()), b2i(locked), b2i(alive), int64(cnt)}
 		if alive {
 			entry = append(entry, s.snapshot(e)...)
 		}
+		entry = append(entry, view...)
 		s.log = append(s.log, entry)
 		o := s.Observers[oi]
 		switch {
